@@ -24,13 +24,20 @@ CHECKS['C18'] = {
             'decided by the reference PDH only. Non-trivial = at least one 200 answer that does not hash to the request, or a remote '
             'answer relayed with rewritten signatures; distinct = fingerprint of (manifest, request id, every answer, release order). '
             'Units: fed = federation.Conn.CollectionGet by PDH and by UUID + rewriteManifest; legacy = rewriteSignatures on synthetic '
-            'http.Responses; legacyfan = fetchRemoteCollectionByPDH through the real Handler (ForceLegacyAPI14) against loopback stubs.',
+            'http.Responses; legacyfan = fetchRemoteCollectionByPDH through the real Handler (ForceLegacyAPI14) against loopback stubs. '
+            'Round 2: about one case in 17-29 carries 1-3 stream lines of 50-280 KiB (600-3300 locators on one line, content derived from a '
+            'drawn seed; labels big:*), and backends also answer with 201/202/203/206/299/301/400/401/403/410/422 (and 404/500) whose '
+            'body/record carries an honest, tampered or different manifest (labels remote:status-*): whatever status a remote used, a '
+            'manifest handed to the client must hash to the request and be the exact +A->+R rewrite of what that remote sent.',
     'assumptions': [
         'lib/controller/localdb/login_pam.go is replaced at build time by a PAM-free stand-in (missing C header in the sandbox)',
         'the answer of the LOCAL cluster is only required to be relayed unchanged (the property speaks about remote clusters)',
         'legacy path: "an honest remote wins" is asserted only for manifests whose locators are all singly signed (the legacy hash check rejects unsigned locators that carry hints; see notes/C18.md)',
         'release order is enforced by hand-shakes plus a short settle sleep; the oracle holds for every interleaving, so scheduling noise cannot cause a false alarm',
         'legacy fan-out: cancellation of hanging remotes is measured (label) but not judged, it is asynchronous on a real connection',
+        'a non-200 answer is not an honest answer (never counted for "an honest remote wins"); whether the code treats it as an error or relays its verified, correctly rewritten content is adopted',
+        'legacy fan-out: any response whose body is a record with a manifest_text counts as "handed to the client", whatever the status line',
+        'stub backends of the new path express "status S with a record" as (Collection{ManifestText}, error with HTTPStatus S)',
     ],
     'units': [
         unit('fed', 'federation_c18', '^TestVerifC18', {'shards': 8, 'checks': 1500}, {'shards': 16, 'checks': 25000, 'timeout': 1500}),
